@@ -205,6 +205,58 @@ func shutConfigs() []shutCfg {
 			w.closerAfterRun()
 		}
 	})
+	add("stop-with-low-priority-in-flight", true, func(w *world) {
+		// Wake and Execute are low-priority requests: the shutdown signal (high priority) arrives while
+		// the loop is busy with them
+		w.script = func(w *world) {
+			done := 0
+			idlePeer(w, &done)
+			sched.Go("user", func() {
+				sched.BlockUntil(func() bool { return len(w.conns) > 0 })
+				c := w.conns[0].c
+				_ = c.Wake(nil)
+				_ = c.EventLoop().Execute(context.Background(), runnable{func() {}})
+				_ = c.Wake(nil)
+				done++
+			})
+			sched.Go("ctl", func() {
+				w.waitBoot()
+				sched.BlockUntil(func() bool { return len(w.conns) > 0 })
+				if err := w.stopEngine(); err != nil {
+					w.violate("stop:err", "Engine.Stop returned %v", err)
+				}
+			})
+			w.closerAfterRun()
+		}
+	})
+	add("stop-at-once+ticker", false, func(w *world) {
+		// Stop races with engine start: the ticker's first OnTick must not run after Run returned
+		w.opts = append(w.opts, WithTicker(true))
+		w.script = func(w *world) {
+			sched.Go("ctl", func() {
+				w.waitBoot()
+				if err := w.stopEngine(); err != nil {
+					w.violate("stop:err", "Engine.Stop returned %v", err)
+				}
+			})
+		}
+	})
+	add("two-conns/onclose-returns-shutdown", true, func(w *world) {
+		// every OnClose answers Shutdown: the shutdown sweep must still reach every connection
+		w.onClose = func(w *world, ci *connInfo, err error) Action { return Shutdown }
+		w.script = func(w *world) {
+			done := 0
+			for i := 0; i < 3; i++ {
+				w.peerThread(fmt.Sprintf("peer%d", i), &done, func(p *peer) {
+					if p.connect() {
+						sched.BlockUntil(func() bool { return len(w.conns) >= 3 })
+					}
+				})
+			}
+			w.ctl(&done, 3, nil)
+			w.closerAfterRun()
+		}
+	})
 	add("ticker+two-listeners/stop", true, func(w *world) {
 		w.opts = append(w.opts, WithTicker(true))
 		w.addrs = []string{w.addr, w.addr + "2"}
